@@ -420,9 +420,7 @@ func (fd *Client) Query(input *dynamodb.QueryInput) (*dynamodb.QueryOutput, erro
 		return nil, awserr.New("ValidationException", "The table does not have the specified index: "+indexName, nil)
 	}
 
-	if input.ScanIndexForward == nil {
-		input.ScanIndexForward = aws.Bool(true)
-	}
+	scanIndexForward := input.ScanIndexForward == nil || aws.BoolValue(input.ScanIndexForward)
 
 	items, lastKey := table.SearchData(core.QueryInput{
 		Index:                     indexName,
@@ -432,7 +430,7 @@ func (fd *Client) Query(input *dynamodb.QueryInput) (*dynamodb.QueryOutput, erro
 		ExclusiveStartKey:         mapAttributeValueToTypes(input.ExclusiveStartKey),
 		KeyConditionExpression:    *input.KeyConditionExpression,
 		FilterExpression:          aws.StringValue(input.FilterExpression),
-		ScanIndexForward:          aws.BoolValue(input.ScanIndexForward),
+		ScanIndexForward:          scanIndexForward,
 	})
 
 	count := int64(len(items))
